@@ -166,7 +166,7 @@ class World:
             cls._instance._key = key
         return cls._instance
 
-    def __init__(self, streams=('bbb', 'tears', 'synirr', 'synoff', 'synnot', 'synenc'), users=True, writable_blobs=False, with_subs=True,
+    def __init__(self, streams=('bbb', 'tears', 'synirr', 'synoff', 'synnot', 'synenc', 'synwild'), users=True, writable_blobs=False, with_subs=True,
                  propagate=False, mps=True):
         import logging
         logging.disable(logging.CRITICAL)
